@@ -70,7 +70,8 @@ pub fn run(ctx: &Ctx) -> Report {
     let lens = [0usize, 1, 2, 3, 16, 255];
     let addrs: [u16; 5] = [0, 3, 0x7F, 0xABCD, 0xFFFF];
     // tails: fill pattern, and the adversarial "looks like a 1-byte code" bytes
-    let tails: Vec<u8> = if thorough { vec![0, 1, 2] } else { vec![0, 1] };
+    let tails: Vec<u8> = vec![0, 1, 2]; // fill, FF with a code in second place, all zero (NUL padding)
+    let _ = thorough;
     let n = 256u64 * 256 * lens.len() as u64 * addrs.len() as u64 * tails.len() as u64;
     let accs = par_range(n, 4096, Acc::default, |acc, i| {
         let mut x = i;
